@@ -93,7 +93,56 @@ func CheckHistory(recs []Rec, p CheckParams) CheckResult {
 	case "event":
 		c.checkEvent()
 	}
+	if p.Prim != "event" && p.Prim != "rlock" { // rlock's nest accounting has its own checker (checkRLockNests)
+		c.checkReleases()
+	}
 	return c.res
+}
+
+// checkReleases: "n locks need n unlocks" from the caller's side — the workload releases only what it holds and long before the
+// expiry, so a release that the primitive REFUSES (neither OK nor a transport error) means the client object lost track of a hold it
+// was granted (e.g. RWLock forgetting a reader, RLock miscounting its depth). Only judged when the same goroutine's preceding
+// acquire on that key succeeded and no transport error happened on that key in between.
+func (c *checker) checkReleases() {
+	rel := map[string]bool{"unlock": true, "runlock": true, "wunlock": true, "release": true}
+	type gk struct {
+		g   int
+		key string
+	}
+	lastOK := map[gk]int{} // position of the last successful acquire-type op, -1 after a transport error
+	for pos := range c.recs {
+		r := &c.recs[pos]
+		k := gk{r.G, r.Key}
+		if r.transport() {
+			// (nil, nil) from a release although the acquire had been answered with success: the
+			// client object did not send it (it is what PriorityLock.Unlock returns before any Lock)
+			if a, held := lastOK[k]; held && a >= 0 && rel[r.Op] && !r.Cleanup && r.TReturn >= 0 && r.Err == "nil result" {
+				c.addViolation("release-not-sent", fmt.Sprintf("%s key %s: goroutine %d's %s (i=%d) returned neither a result nor an error although its %s (i=%d) had succeeded",
+					c.p.Prim, r.Key, r.G, r.Op, r.I, c.recs[a].Op, c.recs[a].I), a, pos)
+			}
+			lastOK[k] = -1
+			continue
+		}
+		if !rel[r.Op] {
+			if r.ok() {
+				lastOK[k] = pos
+			} else {
+				lastOK[k] = -1
+			}
+			continue
+		}
+		if r.Cleanup {
+			continue
+		}
+		a, held := lastOK[k]
+		if held && a >= 0 && !r.ok() && r.TCall-c.recs[a].TReturn < c.p.ExpriedNs/2 {
+			c.addViolation("release-refused", fmt.Sprintf("%s key %s: goroutine %d's %s (i=%d) was refused with result %d although its %s (i=%d) had succeeded %d ms earlier and nothing failed in between",
+				c.p.Prim, r.Key, r.G, r.Op, r.I, r.Result, c.recs[a].Op, c.recs[a].I, (r.TCall-c.recs[a].TReturn)/1e6), a, pos)
+		}
+		if r.ok() && r.Depth == 0 {
+			delete(lastOK, k)
+		}
+	}
 }
 
 func (c *checker) addViolation(clause, what string, positions ...int) {
